@@ -14,6 +14,8 @@ import Ogen.Exchange_proof
 import Ogen.RefCache_proof
 import Ogen.CliStages_proof
 import Ogen.RegexSemantics_proof
+import Ogen.NameGen_proof
+import Ogen.TStore_proof
 
 /-! Line-protocol driver over all executable models: `<model> <payload>` per line, one
     canonical output line per input line. Core-only (no Mathlib) so it links natively. -/
@@ -57,6 +59,8 @@ def dispatch (line : String) : String :=
     | "refs" => RefChain.refsLine payload
     | "cli" => Cli.cliLine payload
     | "rematch" => ReSem.rematchLine payload
+    | "namegen" => NameGen.namegenLine payload
+    | "tstore" => TStore.tstoreLine payload
     | "jeq" => JEqDrv.runLine payload
     | "enum" => JEqDrv.enumLine payload
     | _ => "bad-model"
